@@ -1074,6 +1074,33 @@ func (e *CEnv) callExpr(x *CExpr) (Val, error) {
 			return Val{T: tStr, Term: app("viper_get_str", as[0].Term, as[1].Term)}, nil
 		}
 		return Val{T: tInt, Term: app("viper_get_int", as[0].Term, as[1].Term)}, nil
+	case "ranged":
+		// ranged(): the slice the loop of this invariant ranges over (`for ... := range <expr>`), also when <expr> is a
+		// call result without a name
+		if e.fr == nil || e.rangeAllocs == nil || e.rangeAllocs["rangeindex"] == nil {
+			return Val{}, fmt.Errorf("ranged() is only available in the invariant of a loop that ranges over a slice")
+		}
+		idxAlloc := e.rangeAllocs["rangeindex"]
+		for _, b := range e.fr.fn.Blocks {
+			for _, in := range b.Instrs {
+				ia, ok := in.(*ssa.IndexAddr)
+				if !ok {
+					continue
+				}
+				ld, ok := ia.Index.(*ssa.UnOp)
+				if !ok {
+					if bo, isBin := ia.Index.(*ssa.BinOp); isBin {
+						ld, ok = bo.X.(*ssa.UnOp)
+					}
+				}
+				if ok && ld != nil && ld.X == ssa.Value(idxAlloc) {
+					if v, have := e.fr.vals[ia.X]; have {
+						return v, nil
+					}
+				}
+			}
+		}
+		return Val{}, fmt.Errorf("ranged(): the ranged slice was not found")
 	case "posInf":
 		// posInf(): math.Inf(1) -- the IEEE value, or (floats real) the same uninterpreted real the model of math.Inf gives
 		if c.floatsIEEE {
